@@ -77,6 +77,8 @@ type podT struct {
 	// what the API object currently says
 	apiIPs   []string
 	finished bool
+	// lingering: the pod's node was deleted, the machine is gone, but the pod object still exists in the API
+	lingering bool
 }
 
 func (p *podT) key() string { return podNS + "/" + p.name }
